@@ -2148,7 +2148,10 @@ func (self *LockDB) Lock(serverProtocol ServerProtocol, command *protocol.LockCo
 				}
 				currentLock.protocol = serverProtocol.GetProxy()
 				if currentLock.isAof {
+					ackFlag := command.TimeoutFlag & protocol.TIMEOUT_FLAG_REQUIRE_ACKED
+					command.TimeoutFlag &^= protocol.TIMEOUT_FLAG_REQUIRE_ACKED
 					_ = lockManager.PushLockAof(currentLock, AOF_FLAG_UPDATED)
+					command.TimeoutFlag |= ackFlag
 				}
 				lockManager.state.LockCount++
 				lockManager.state.LockedCount++
